@@ -127,8 +127,8 @@ runs the check through `VERIF_REPO`, expects exit 1 and removes the copy.
 
 ### 7.5 Sensitivity: breaking changes seeded by independent sub-agents (`seeded/<name>/`)
 
-Three rounds of twenty fresh sub-agents (one per property and round) were given only the
-property text and a scratch git worktree under /tmp - nothing from /verif; in the second and third
+Four rounds of twenty fresh sub-agents (one per property and round) were given only the
+property text and a scratch git worktree under /tmp - nothing from /verif; in the later
 rounds also the one-line summaries of the earlier rounds' changes with the instruction to find
 something of a different kind - and asked for up to two plausible changes that break the
 property, pass the whole test suite and need something specific to manifest. All ''' + str(total) + '''
@@ -137,7 +137,7 @@ all 752 baseline tests pass with the change) and are kept with `patch.diff`, `de
 `meta.json`. ''' + str(total - missed) + ''' were caught by the quick tier as it stood when they arrived; **''' + str(missed) + ''' were
 missed and led to the strengthenings listed below**, after which all ''' + str(total) + ''' are caught by the
 quick tier of their own property (`tools/mutants.py --seeded`). Names `Cxx_n` are round 1,
-`Cxx_bn` round 2, `Cxx_cn` round 3 (which also suggested kinds of change: cooperating sites, configuration constants, numeric edge values, argument types, duck-typed streams, shared state between objects, half-updated objects after an error).
+`Cxx_bn` round 2, `Cxx_cn` round 3 (which also suggested kinds of change: cooperating sites, configuration constants, numeric edge values, argument types, duck-typed streams, shared state between objects, half-updated objects after an error), `Cxx_dn` round 4 (kinds suggested: data-dependent numeric paths such as overflow and non-finite values, sizes beyond an internal block length, optional header fields, file-name conventions, resource handling such as memory maps, interactions of three parameters). Four round-4 seeds (C09_d1, C10_d1, C17_d1, C17_d2) met a working tree that I had already strengthened on my own; the committed checks of that moment missed them and they are counted as misses. Seeds are also re-run at VERIF_SEED 2 and 3; two (C06_c2, C14_b1) were caught at seed 1 but not at seed 3, so the lowered-threshold configurations were made five times more frequent and more extreme (down to 1e-6) and signal lengths on the frame-count boundaries (whole and half multiples of the shift, +-1) are now generated on purpose.
 
 | seed | change | first quick run | strengthening |
 |------|--------|-----------------|---------------|
@@ -163,7 +163,12 @@ scalars too, streams are not only BytesIO / open(path), arrays may be ndarray su
 0-d; (x) after a rejected call the object is used again. A harness lesson: a shared spec
 gained a key that leaked into one clause's constructor arguments and silently turned every
 case of that clause into a discard - a clause that discards more than 60 % of its cases is now
-a harness error.
+a harness error. From round 4: (xi) non-finite samples belong in float data wherever the statement's
+definition is local (only entries whose reference value is finite are judged); (xii) every internal
+block length of the implementation *or of a plausible re-implementation* (2**11 vectors, 2**15
+samples, 16 KiB reads) needs sizes beyond it; (xiii) optional fields of a file format are
+sometimes left out; (xiv) integer arguments far beyond any array size (shifts of 2**62); (xv)
+a value that the default dtype cannot distinguish (the two mu-law zeros) needs a read that can.
 '''
 p = os.path.join(H, "DESIGN.md")
 s = open(p).read()
